@@ -279,3 +279,10 @@ func stripIdx(p string) string {
 	}
 	return string(out)
 }
+
+
+// SetField sets the (possibly unexported) field name of the struct root points to.
+func SetField(root any, name string, val any) {
+	f := settable(reflect.ValueOf(root).Elem().FieldByName(name))
+	f.Set(reflect.ValueOf(val))
+}
